@@ -4,6 +4,8 @@ ENTRY = {'coq_dir': 'C07',
  'harness': 'c07',
  'cases': {'quick': 1500, 'thorough': 30000},
  'harness_timeout': 2400,
+ 'thorough_streams': [('quic', '{V}/tools/c07_quic_stream.sh {seed} 1200 3')],
+ 'stream_timeout': 1500,
  'consts': ['CONN_EXIT_SITES', 'WS_EXIT_SITES', 'QUIC_EXIT_SITES'],
  'rule': 'three streams from one seed. (iii) back-pressure, one case per 3 report-level cases: 1-4 protocols with real mpsc channels of capacity 1-3 that are drained only when the case says so, up to 6 connections = real ProtocolSets whose reports (established / substream-open failure / closed) run as tasks that wait for room; accept, loop events, protocol receives k events, protocol exits; after every operation the completed reports, the manager channel, the received events, queue lengths and the phase of every connection are compared with the model coq/C07/Block.v (over coq/Ts/Report.v). (i) report level, one case per --cases: 2-10 operations on the real ProtocolSet built the way '
          'TransportHandle::protocol_set builds it (1-5 protocols): kill a protocol receiver / the manager receiver, '
@@ -27,8 +29,8 @@ ENTRY = {'coq_dir': 'C07',
                'of `?`/`return`/`Ok(true)` sites extracted from tcp/connection.rs on every run, and likewise the separate tables of the one-function '
                'websocket and quic loops. No known-finding class is left (F-C07a and F-C07b are repaired).',
  'level_note': 'Trusted: Coq kernel, extraction, harness, the regex-level extractor. TCP and WebSocket are exercised end to end by ./check; the '
-               'QUIC loop is repaired and tied by its exit table, its end-to-end stream is run by hand (tools/c07_quic_stream.sh: the harness must '
-               'be built with its optional quic feature; no link cut and no remote kill there). Thread interleavings between the '
+               'QUIC loop is repaired and tied by its exit table, its end-to-end stream (400 scenarios) is part of the thorough tier only (tools/c07_quic_stream.sh builds the '
+               'harness a second time with its optional quic feature; no link cut and no remote kill there). Thread interleavings between the '
                'connection task and the manager loop appear only as event orders, under the atomicity facts checked against the code: the peers RwLock is written only by the manager task for `state` (handles write only `addresses` and read `state`), no manager handler holds the lock across an await, connection ids and substream ids come from AtomicUsize::fetch_add, protocol senders are cloned mpsc senders (no shared map), the connection task is spawned inside the poll of the accept future whose completion the manager consumes in the same poll (so Closed can never overtake AcceptDone), the manager never awaits a protocol channel (try_send only); the try_get_permit failure path is reachable hook-free (the remote keeps opening substreams the node refuses, each as soon as the previous failed, across the moment the node\'s protocols release the connection; needs TCP_NODELAY and more than one worker thread; about 1% per attempt: 2 silent exits in 240 attempts on the tree without the no-permit repair, 0 in 720 with it) and is scripted as step 20, but a quick run rarely hits it: there the skeleton tie is what guards it. A live protocol that never drains its channel holds back the reports of every connection (back-pressure by design; assumed not to happen for liveness).',
  'trusted_base': ['tools/gen_conn_exits.py: regex-level extractor of the exit sites of start / handle_yamux_substream / '
                   'handle_negotiated_substream / handle_protocol_command (blanked strings and comments, matched braces); it can mis-classify a '
